@@ -2,17 +2,19 @@
 # usage: lib/try_patch.sh <patch.diff> <Cxx> [<Cxx> ...]
 # Applies a seeded change to a scratch worktree of /repo (never to /repo itself), runs the checks of
 # the given properties against that copy (VERIF_REPO / VERIF_OUT), and resets the worktree.
+# MUT_DIR / MUT_OUT choose another scratch worktree / output directory (parallel use).
 # Prints one line per property: CAUGHT / MISSED (+ first violation signatures).
 set -u
 PATCH=$(readlink -f "$1"); shift
-MUT=/tmp/repo_mut
+MUT=${MUT_DIR:-/tmp/repo_mut}
+MOUT=${MUT_OUT:-/tmp/verif_out_mut}
 if [ ! -d $MUT ]; then git -C /repo worktree add -q --detach $MUT HEAD || exit 2; cp /repo/Cargo.lock $MUT/Cargo.lock; fi
 git -C $MUT checkout -q --detach "$(git -C /repo rev-parse HEAD)" || exit 2
 git -C $MUT checkout -q -- . 
 ( cd $MUT && { git apply "$PATCH" 2>/dev/null || git apply --unidiff-zero "$PATCH"; } ) || { echo "patch does not apply"; exit 2; }
 cd /verif
 for P in "$@"; do
-  OUT=$(VERIF_REPO=$MUT VERIF_OUT=/tmp/verif_out_mut VERIF_SEED=${VERIF_SEED:-20261002} ./check "$P" ${TIER:-quick} 2>&1)
+  OUT=$(VERIF_REPO=$MUT VERIF_OUT=$MOUT VERIF_SEED=${VERIF_SEED:-20261002} ./check "$P" ${TIER:-quick} 2>&1)
   RC=$?
   SIG=$(echo "$OUT" | grep -m3 "sig:" | tr '\n' ' ')
   if [ $RC -eq 1 ]; then echo "CAUGHT $P rc=$RC $SIG"; elif [ $RC -eq 0 ]; then echo "MISSED $P rc=$RC"; else echo "ERROR  $P rc=$RC $(echo "$OUT" | tail -3 | tr '\n' ' ')"; fi
